@@ -19,6 +19,7 @@ type HelperContext struct {
 	hctx.Context
 	compiler *compiler
 	block    *ast.BlockStatement
+	signal   *blockSignal
 }
 
 const helperContextKind = "HelperContext"
@@ -55,29 +56,28 @@ func (h HelperContext) BlockWith(hc hctx.Context) (string, error) {
 	cc := compiler{
 		ctx:     hc,
 		program: h.compiler.program,
-		// a break / continue in a helper's block nested in this block stops
-		// here; one that leaves this block goes to the evaluator that
-		// called the helper
-		loopControl: &loopSignal{parent: h.compiler.loopControl},
+		exec:    h.compiler.exec,
 	}
 
 	i, err := cc.evalBlockStatement(h.block)
 	if err != nil {
-		if cc.curStmt != nil && blockErrorOf(err, cc.loopControl) == nil {
-			err = &blockError{stmt: cc.curStmt, exec: cc.loopControl.root(), err: err}
+		if cc.curStmt != nil && blockErrorOf(err, cc.exec) == nil {
+			err = &blockError{stmt: cc.curStmt, exec: cc.exec, err: err}
 		}
 		return "", err
 	}
 
 	// a break or continue in the block belongs to the loop around the
 	// helper's call: the block keeps what it has produced, and the
-	// evaluator that called the helper passes the signal on when the
-	// statement holding the call is done
+	// evaluator that made the call passes the signal on when the statement
+	// holding the call is done
 	switch ctl := i.(type) {
 	case continueObject:
-		i, h.compiler.loopControl.ctl = ctl.Value, continueObject{}
+		i = ctl.Value
+		h.signal.raise(blockContinues)
 	case breakObject:
-		i, h.compiler.loopControl.ctl = ctl.Value, breakObject{}
+		i = ctl.Value
+		h.signal.raise(blockBreaks)
 	}
 
 	bb := &strings.Builder{}
@@ -90,7 +90,7 @@ func (h HelperContext) BlockWith(hc hctx.Context) (string, error) {
 // the error is reported at that statement's line.
 type blockError struct {
 	stmt ast.Statement
-	exec *loopSignal // stands for the execution (Template.Exec) the block ran in
+	exec *execution // the execution (Template.Exec) the block ran in
 	err  error
 }
 
@@ -98,17 +98,17 @@ func (e *blockError) Error() string { return e.err.Error() }
 func (e *blockError) Unwrap() error { return e.err }
 
 // blockErrorOf finds the failing block statement that belongs to the
-// execution that sig is part of. An error that comes out of a partial (or
+// execution exec. An error that comes out of a partial (or
 // out of another execution of the same template, when a template includes
 // itself) carries a statement of that other execution, which says nothing
 // about a line of the caller.
-func blockErrorOf(err error, sig *loopSignal) *blockError {
+func blockErrorOf(err error, exec *execution) *blockError {
 	for err != nil {
 		var be *blockError
 		if !errors.As(err, &be) {
 			return nil
 		}
-		if be.exec == sig.root() {
+		if be.exec == exec {
 			return be
 		}
 		err = be.err
